@@ -473,24 +473,50 @@ DROP = 1e-8  # the library drops outcomes with numpy.isclose(p, 0) (absolute 1e-
 
 
 class Leaf:
-    __slots__ = ("outcome", "weight", "state", "history")
+    __slots__ = ("outcome", "weight", "state", "history", "actual")
 
-    def __init__(self, outcome, weight, state, history):
+    def __init__(self, outcome, weight, state, history, actual=None):
         self.outcome = outcome
         self.weight = weight
         self.state = state  # normalised after measurements; post-selection leaves it un-normalised
-        self.history = history  # tuple of per-measurement outcome tuples
+        self.history = history  # tuple of per-measurement (reported) outcome tuples
+        # tuple of per-measurement ACTUAL photon numbers (differs from `history` behind an imperfect detector)
+        self.actual = history if actual is None else actual
 
 
-def run_tree(state, ops, fermion_sign="left", on_measure=None):
+def detector_law(P, actual):
+    """classical detector channel of an imperfect photon-number measurement: P[n][m] = p(detected n | actual m),
+    independently per measured mode.  -> {detected tuple: probability} (zero-probability tuples omitted)"""
+    nrows = len(P)
+    for m in actual:
+        if m >= len(P[0]):
+            raise ValueError("detector matrix has no column for the photon number %d" % m)
+    law = {}
+    for det in itertools.product(range(nrows), repeat=len(actual)):
+        q = 1.0
+        for n, m in zip(det, actual):
+            q *= float(P[n][m])
+        if q > 0.0:
+            law[det] = q
+    return law
+
+
+def run_tree(state, ops, fermion_sign="left", on_measure=None, renormalise=True):
     """ops: list of dicts
          {"k": "gate", "cls", "modes", "params": fn(outcome)->dict, "cond": fn(outcome)->bool or None}
          {"k": "pnm", "modes"}     {"k": "ps", "modes", "counts"}
+         {"k": "ipnm", "modes", "P"}   imperfect detector: one leaf per (actual, detected) pair with weight
+             weight * p(actual) * P(detected | actual), reported outcome = detected, state = the normalised projection
+             on the ACTUAL outcome (its own copy); the leaves of one detected outcome together are the mixture
+             sum_actual P(detected|actual) p(actual) rho_actual / weight(detected)
     Returns the leaves.  A PNM multiplies the weight by the (un-normalised) marginal probability of the state it
     measures and leaves a NORMALISED state; a post-selection leaves the weight alone and the state un-normalised.
     Hence the weights are the joint probabilities of (all post-selections so far succeed, outcomes) and sum to the
-    norm of the measured state."""
-    leaves = [Leaf((), 1.0, state, ())]
+    norm of the measured state.
+    renormalise=False is NOT the specification: it is the model of a known defect (the branch state is left
+    un-normalised by a measurement, so that the next measurement multiplies the probability of the history in once
+    more), used only to tell that defect from other deviations."""
+    leaves = [Leaf((), 1.0, state, (), ())]
     first_measurement = True
     for idx, op in enumerate(ops):
         new = []
@@ -499,11 +525,11 @@ def run_tree(state, ops, fermion_sign="left", on_measure=None):
                 if lf.state is None or (op.get("cond") is not None and not op["cond"](lf.outcome)):
                     new.append(lf)
                     continue
-                new.append(Leaf(lf.outcome, lf.weight, apply_gate(lf.state, op["cls"], op["modes"], op["params"](lf.outcome)), lf.history))
+                new.append(Leaf(lf.outcome, lf.weight, apply_gate(lf.state, op["cls"], op["modes"], op["params"](lf.outcome)), lf.history, lf.actual))
             elif op["k"] == "ps":
                 st, p = project(lf.state, op["modes"], op["counts"], normalise=False, fermion_sign=fermion_sign)
-                new.append(Leaf(lf.outcome, lf.weight, st if st.modes else None, lf.history))
-            elif op["k"] == "pnm":
+                new.append(Leaf(lf.outcome, lf.weight, st if st.modes else None, lf.history, lf.actual))
+            elif op["k"] in ("pnm", "ipnm"):
                 law = marginal_law(lf.state, op["modes"])
                 if on_measure is not None:
                     on_measure(idx, lf, law)
@@ -511,8 +537,14 @@ def run_tree(state, ops, fermion_sign="left", on_measure=None):
                     p = law[outcome]
                     if p <= 0.0:
                         continue
-                    st, p2 = project(lf.state, op["modes"], outcome, normalise=True, fermion_sign=fermion_sign)
-                    new.append(Leaf(lf.outcome + outcome, lf.weight * p, st if st.modes else None, lf.history + (outcome,)))
+                    st, p2 = project(lf.state, op["modes"], outcome, normalise=renormalise, fermion_sign=fermion_sign)
+                    if op["k"] == "pnm":
+                        new.append(Leaf(lf.outcome + outcome, lf.weight * p, st if st.modes else None, lf.history + (outcome,), lf.actual + (outcome,)))
+                        continue
+                    for det, q in sorted(detector_law(op["P"], outcome).items()):
+                        new.append(
+                            Leaf(lf.outcome + det, lf.weight * p * q, st.copy() if st.modes else None, lf.history + (det,), lf.actual + (outcome,))
+                        )
             else:
                 raise KeyError(op["k"])
         leaves = new
